@@ -300,4 +300,55 @@ def commStack (dim : Nat) (gens : List (Mat QI)) : QMat :=
 def commutantDim (dim : Nat) (gens : List (Mat QI)) : Nat :=
   dim * dim - rank (gens.length * dim * dim) (dim * dim) (commStack dim gens)
 
+
+/-! ## `tensor_comb` and argument guards of the helpers -/
+
+/-- `itertools.product(range(n), repeat=k)` (first index slowest) -/
+def productSeqs (n : Nat) : Nat → List (List Nat)
+  | 0 => [[]]
+  | k + 1 => (List.range n).flatMap fun i => (productSeqs n k).map (i :: ·)
+
+/-- row-major flat data of a matrix -/
+def flatC (M : Mat α) : Nat → α := fun k => M.f (k / M.c) (k % M.c)
+
+/-- `tensor_comb(states, k)` for `k ≥ 1`: for every index sequence the density matrix of the Kronecker product of the chosen states
+```
+if not states: raise ValueError
+for seq in itertools.product(range(len(states)), repeat=k):
+    prod = np.array(states[seq[0]]); for s in seq[1:]: prod = np.kron(prod, states[s])
+    result[seq] = to_density_matrix(prod)
+```
+`is1d`: the states are 1-d arrays (handled as `1 × n`; their Kronecker product is again 1-d); `none` = `ValueError` (empty list, or
+`to_density_matrix` rejecting a product that is neither a vector nor square) -/
+def tensorComb [Mul α] [HasConj α] (is1d : Bool) (states : List (Mat α)) (k : Nat) : Option (List (List Nat × Mat α)) :=
+  match states with
+  | [] => none
+  | s0 :: _ =>
+    (productSeqs states.length k).mapM fun seq =>
+      match seq.map (fun i => states.getD i s0) with
+      | [] => none
+      | a :: rest =>
+        let p := kronFold a rest
+        (toDensityMatrix (if is1d then .d1 p.c else .d2 p.r p.c) (flatC p)).map fun d => (seq, d)
+
+/-- `is_square(mat)`: `if len(mat.shape) != 2: raise ValueError`; every predicate guarded by `is_square` inherits the exception -/
+def isSquareShape (s : ArrShape) : Option Bool :=
+  match s with
+  | .d2 r c => some (r == c)
+  | _ => none
+
+/-- the guard of `spark`: `if not isinstance(mat, np.ndarray) or mat.ndim != 2: raise ValueError` (`true` = accepted) -/
+def sparkGuard (isNdarray : Bool) (s : ArrShape) : Bool :=
+  isNdarray && (match s with | .d2 _ _ => true | _ => false)
+
+/-- the guard of `vectors_to_gram_matrix`: `if not all(v.shape == vectors[0].shape for v in vectors): raise ValueError`
+    (a `(d,)` vector and a `(d, 1)` column have different shapes) -/
+def gramGuard (shapes : List ArrShape) : Bool :=
+  match shapes with
+  | [] => true
+  | s0 :: _ => shapes.all (fun s => s == s0)
+
+/-- the guard of `vectors_from_gram_matrix`: `if gram.shape[0] != gram.shape[1]: raise LinAlgError` -/
+def fromGramGuard (r c : Nat) : Bool := r == c
+
 end Toq.MatrixOps
